@@ -255,3 +255,11 @@ package convert
 //@   borrows path
 //@   requires (and (wf_deep val) (plain val) (is_bool_ty (vty val)))
 //@   ensures[C08] text: (and (= result.1 nil.Any) (is_string_ty (vty result.0)) (plain result.0) (= (str_of result.0) (ite (bool_of val) "true" "false")))
+//
+// string -> number: an error or a plain number (what ParseNumberVal parsed; its value clause is assumed)
+//@ func convert.init$3
+//@   tags C08
+//@   borrows path
+//@   requires (and (wf_deep val) (plain val) (is_string_ty (vty val)))
+//@   ensures[C08] number: (=> (= result.1 nil.Any) (and (is_number_ty (vty result.0)) (plain result.0) (wf_deep result.0)))
+//@   ensures[C08] errnil: (=> (not (= result.1 nil.Any)) (= result.0 $G<cty.NilVal>))
